@@ -189,12 +189,19 @@ def run(ctx):
     produced = {"f+g": h, "n*f": nf, "n*f single": nf1, "1*f": one, "formula(dict)": f, "formula(seq)": I.call(fm, [seq], {}),
                 "formula(atom)": I.call(fm, [ionI], {}), "f+=g": f2, "hill": I.getattr(h, "hill"),
                 "replace": I.call(I.getattr(f, "replace"), [Fe, O], {})}
+    # sequences whose top level is already a tuple but whose fragments are the caller's own lists
+    inner = [(q[0], Fe), (q[1], O)]
+    produced["formula(tuple holding a list)"] = I.call(fm, [((q[2], inner),)], {})
+    produced["formula(tuple of tuples holding a list)"] = I.call(fm, [((sp.Integer(1), ((q[2], inner),)),)], {})
     for name, obj in produced.items():
         st = struct(obj)
         ctx.check(tuple_everywhere(st), "R4", f"structure of {name} is a tuple of pairs at every level",
                   f"structure {st!r} contains a mutable or malformed container", s_formula,
                   sample=_s(st, 120))
-    ctx.floor("R4", 10)
+    inner.append((q[3], H1))      # the caller goes on using its list
+    dict_eq(ctx, "R4", "a formula built from a caller's nested list does not change when the caller edits that list afterwards",
+            atoms(produced["formula(tuple holding a list)"]), {Fe: q[2] * q[0], O: q[2] * q[1]}, s_formula)
+    ctx.floor("R4", 13)
 
     # ---- R5 initializer dispatch --------------------------------------------
     e0 = I.call(fm, [None], {})
